@@ -55,6 +55,17 @@ Proof.
 Qed.
 Print Assumptions C04_merge.
 
+(* a stored partition as newCursor sees it: the journal (any chunk layout; ids increasing, no empty chunk) read through
+   the range iterator from a fresh iterator is a well-formed source, and alone it delivers its flat record list *)
+Theorem C04_journal_source : forall j, wf_journal j ->
+  leaf_ok false (LR j (jit_at 0 0)) /\ leaf_rest (LR j (jit_at 0 0)) = flat j.
+Proof.
+  intros j W. split.
+  - split; [|reflexivity]. split; [exact W|]. cbn. unfold MaxU64, MaxU32. lia.
+  - cbn [leaf_rest j_bk jit_at]. rewrite (lr_pos_head j W). apply rest_at_fwd_neg. lia.
+Qed.
+Print Assumptions C04_journal_source.
+
 (* a source stored in time order delivers in time order in either direction (the hypothesis of (4) for stored data) *)
 Theorem C04_sorted_source : forall flat bk p tag, ev_sorted flat ->
   StronglySorted (ts_rel bk) (map (fun e => (e, tag)) (rest_at flat bk p)).
